@@ -90,6 +90,15 @@ def step (s : St) (ws : List String) : Out :=
       let views := Msg.selectOwn o idxs
       if s.pool then runM s (poolEdit s (s.msg.resetOptionsTo g gb views) true)
       else runM s (rawEdit s (fun m o b => Options.resetOptionsTo g m o b views))
+  | ["resetslice", k, n] =>
+    match k.toNat?, n.toNat? with
+    | some k, some n =>
+      -- `in` is the slice [k:k+n] of the object's own option array (normalised into range as in the harness)
+      let k' := k % (o.len + 1)
+      let n' := n % (o.len - k' + 1)
+      if s.pool then runM s (poolEdit s (s.msg.resetOptionsToOwnSlice g gb k' n') true)
+      else runM s (rawEdit s (fun m o b => Options.resetOptionsToAliased g m o b k' n'))
+    | _, _ => ("bad-op", some s)
   | "resetto" :: _n :: items =>
     match parseItems items with
     | none => ("bad-op", some s)
@@ -254,6 +263,7 @@ def parseOp (ws : List String) : Option Op :=
   | ["addquery", q] => do pure (.addQuery (← parseHex? q))
   | "resetto" :: _ :: items => do pure (.resetTo (← parseItems items))
   | "resetself" :: idxs => do pure (.resetSelf (← idxs.mapM String.toNat?))
+  | ["resetslice", k, n] => do pure (.resetSlice (← k.toNat?) (← n.toNat?))
   | ["clone"] => some .clone
   | ["swap"] => some .swap
   | ["reset"] => some .reset
